@@ -712,6 +712,54 @@ impl Director {
                 }
                 self.give(run, Stim::Batch(d)).await;
             }
+            16 => {
+                // the SAME missing batch in two different proposals: A (round r) is parked on batch d, a
+                // TC ends the round, and the next leader proposes d again on top of the TC; the second
+                // block must be parked too (and not be voted) until d is stored
+                let next = run.w.u.leader(round + 1);
+                if next == node {
+                    return;
+                }
+                let d = fresh(&mut self.rng);
+                let a = run.w.u.mk_block(leader, round, self.tip.clone(), tc, vec![d.clone()]);
+                self.blocks.insert(a.digest().0, a.clone());
+                self.give(run, Stim::Msg(ConsensusMessage::Propose(a))).await;
+                if let Some(s) = quorum_subset(&run.w.u, &mut self.rng, &others(&run.w.u, node)) {
+                    let entries: Vec<(u64, u64)> = s.iter().map(|j| (*j, self.tip.round)).collect();
+                    let t = run.w.u.mk_tc(round, &entries);
+                    self.give(run, Stim::Msg(ConsensusMessage::TC(t.clone()))).await;
+                    let b = run.w.u.mk_block(next, round + 1, self.tip.clone(), Some(t.clone()), vec![d.clone()]);
+                    self.blocks.insert(b.digest().0, b.clone());
+                    self.give(run, Stim::Msg(ConsensusMessage::Propose(b))).await;
+                    self.tc = Some(t);
+                    self.round = round + 1;
+                }
+                self.give(run, Stim::Batch(d)).await;
+            }
+            17 => {
+                // two view changes in a row without a new QC (TC(r), TC(r+1): the node is in r+2 with its
+                // old high QC), the node times out in r+2, and then a peer's timeout of r+2 carries a QC of
+                // the INTERMEDIATE round r: the high QC moves up, the round must not move back
+                let signers = match quorum_subset(&run.w.u, &mut self.rng, &others(&run.w.u, node)) {
+                    Some(s) => s,
+                    None => return,
+                };
+                let p = run.w.u.mk_block(leader, round, self.tip.clone(), tc, vec![]);
+                self.blocks.insert(p.digest().0, p.clone());
+                let qc_mid = run.w.u.mk_qc(p.digest(), round, &signers);
+                let entries: Vec<(u64, u64)> = signers.iter().map(|j| (*j, self.tip.round)).collect();
+                let t1 = run.w.u.mk_tc(round, &entries);
+                let t2 = run.w.u.mk_tc(round + 1, &entries);
+                self.give(run, Stim::Msg(ConsensusMessage::TC(t1))).await;
+                self.give(run, Stim::Msg(ConsensusMessage::TC(t2.clone()))).await;
+                self.give(run, Stim::Timer).await;
+                let j = signers[0];
+                let t = run.w.u.mk_timeout(round + 2, qc_mid, j);
+                self.give(run, Stim::Msg(ConsensusMessage::Timeout(t))).await;
+                self.give(run, Stim::Timer).await;
+                self.tc = Some(t2);
+                self.round = round + 2;
+            }
             5 => {
                 // a view change that leaves the node one QC behind: it learns TC(round) reporting the
                 // tip, then the next leader's block carrying the tip's QC and that TC, then times out
@@ -1315,11 +1363,16 @@ fn stake_styles(rng: &mut SmallRng) -> Vec<u32> {
 }
 
 pub fn run_scenario(seed: u64, steps: usize, rep: &mut Report, use_model: bool) {
+    run_scenario_with(seed, steps, rep, use_model, None)
+}
+
+/// `forced`: the directed template to play (otherwise drawn from the seed).
+pub fn run_scenario_with(seed: u64, steps: usize, rep: &mut Report, use_model: bool, forced: Option<u32>) {
     let mut rng = SmallRng::seed_from_u64(seed);
     let mut stakes = stake_styles(&mut rng);
     // the directed template of this scenario; the two multi-round attacks need five or six consecutive
     // rounds not led by the node, i.e. a committee of at least six or seven
-    let template = SmallRng::seed_from_u64(seed ^ 0x7e3a).gen_range(0, 16u32);
+    let template = forced.unwrap_or_else(|| SmallRng::seed_from_u64(seed ^ 0x7e3a).gen_range(0, 16u32));
     if template == 6 || template == 12 || template == 14 {
         stakes = vec![1; 7];
     }
@@ -1441,6 +1494,14 @@ pub fn run(o: &Opts) -> Report {
     let (scenarios, steps) = if o.thorough() { (1500, 40) } else { (120, 25) };
     for i in 0..scenarios {
         run_scenario(o.seed.wrapping_mul(1_000_003).wrapping_add(i), steps, &mut rep, true);
+    }
+    // templates added after the seed -> template table was fixed get scenarios of their own, so that the
+    // scenarios above stay what they were
+    let extra = if o.thorough() { 60 } else { 6 };
+    for (k, t) in [16u32, 17].iter().enumerate() {
+        for i in 0..extra {
+            run_scenario_with(o.seed.wrapping_mul(1_000_003).wrapping_add(500_000 * (k as u64 + 1) + i), steps, &mut rep, true, Some(*t));
+        }
     }
     rep
 }
